@@ -146,8 +146,11 @@ func (r *WireReader) nextSeg() bool {
 }
 
 func (r *WireReader) Read(b []byte) (int, error) {
-	if !r.nextSeg() && len(b) > 0 {
-		return 0, io.EOF
+	if !r.nextSeg() {
+		if len(b) > 0 {
+			return 0, io.EOF
+		}
+		return 0, nil
 	}
 	n := copy(b, r.wire[r.seg][r.pos:])
 	r.pos += n
@@ -164,7 +167,8 @@ func (r *WireReader) ReadByte() (byte, error) {
 }
 
 func (r *WireReader) UnreadByte() error {
-	if r.pos == 0 {
+	// step back over the segment boundary, and over empty segments
+	for r.pos == 0 {
 		if r.seg == 0 {
 			return errors.New("encoding.WireReader.UnreadByte: negative position")
 		}
